@@ -320,6 +320,21 @@ impl Prop for C17 {
             x.begin_op(99);
             std::fs::write(&path, &bytes).expect("harness: write input file to the sim disk");
         }
+        // an earlier call on the same thread (another, tiny file: read completely, cut short, or malformed) must not
+        // leak into this one (state kept between calls: line buffers, scratch space)
+        if case.hash_seed % 5 <= 2 {
+            x.begin_op(98);
+            let other: &[u8] = match case.hash_seed % 5 {
+                0 => b"NAME P\nROWS\n N  COST\n L  LIM\nCOLUMNS\n    Q  COST  1  LIM  2\nRHS\n    RHS  LIM  4\nBOUNDS\n UP BND  Q  9\nENDATA\n",
+                1 => b"NAME P\nROWS\n N  COST\n L  LIM\nCOLUMNS\n    Q  COST  1  LI",
+                _ => b"NAME P\nROWS\n N  COST\n Z  LIM\nCOLUMNS\n",
+            };
+            if let Err(p) = x.sut(|| ommx::mps::load_raw_reader(other)) {
+                x.count("probe.earlier_call_panicked");
+                let _ = p;
+            }
+            x.count("probe.earlier_call_on_the_same_thread");
+        }
         x.begin_op(0);
         let r = match case.entry {
             Entry::RawReader => x.sut(|| ommx::mps::load_raw_reader(SimReader::new(bytes.clone(), STREAM))),
